@@ -140,6 +140,26 @@ impl Dyn {
             other => other.clone(),
         }
     }
+    /// does some sequence / tuple of the value have an item that is itself a sequence-like value
+    /// writing nothing (an empty sequence, tuple or tuple variant; nested: a sequence of only such)?
+    pub fn has_empty_sequence_item(&self) -> bool {
+        fn writes_nothing(d: &Dyn) -> bool {
+            match d {
+                Dyn::Seq(v) | Dyn::Tuple(v) | Dyn::TupleVariant(_, _, v) => v.iter().all(writes_nothing),
+                Dyn::Some(v) | Dyn::Newtype(_, v) => writes_nothing(v),
+                _ => false,
+            }
+        }
+        match self {
+            // (an empty tuple variant writes nothing wherever it stands, and reports an element)
+            Dyn::TupleVariant(_, _, v) if v.is_empty() => true,
+            Dyn::Seq(v) | Dyn::Tuple(v) | Dyn::TupleVariant(_, _, v) => v.iter().any(|x| writes_nothing(x) || x.has_empty_sequence_item()),
+            Dyn::Some(v) | Dyn::Newtype(_, v) | Dyn::NewtypeVariant(_, _, v) => v.has_empty_sequence_item(),
+            Dyn::Map(v) => v.iter().any(|(_, x)| x.has_empty_sequence_item()),
+            Dyn::Struct(_, v) | Dyn::StructVariant(_, _, v) => v.iter().any(|(_, x)| x.has_empty_sequence_item()),
+            _ => false,
+        }
+    }
     /// does some struct or map of the value name the same attribute (`@key`) twice?
     pub fn repeats_attribute_key(&self) -> bool {
         fn dup<'k>(keys: impl Iterator<Item = &'k str>) -> bool {
